@@ -6,10 +6,12 @@
 // Parts:
 //
 //	mem            histories against a three-valued model (c05.go)
+//	mem-big        the same model at sizes 6..64 with more keys than the size (c05.go)
 //	mem-small      complete enumeration of all histories of <= 3 steps (c05.go)
-//	diff           redis-backed (in-process fake redis.Cmdable) vs in-memory (c05_diff.go, c05_fake.go)
+//	diff           redis-backed (in-process fake redis.Cmdable, one or two caches) vs in-memory (c05_diff.go, c05_fake.go)
 //	race-oneshot   concurrent Get(RemoveAfterGet) on one key, -race binary (c05_race.go)
-//	race-stress    mixed concurrent programs, -race binary (c05_race.go)
+//	race-mne       concurrent Set(must-not-exist) on absent keys, -race binary (c05_race.go)
+//	race-stress    mixed concurrent programs, then a sequential model-checked epilogue, -race binary (c05_race.go)
 package c05ttl
 
 import (
@@ -30,8 +32,10 @@ const Property = "C05"
 
 const (
 	inf     = int64(math.MaxInt64)
-	t0      = int64(1_000_000) // start of the virtual clock (unix seconds)
-	maxKeys = 5
+	t0      = int64(1_000_000) // default start of the virtual clock (unix seconds)
+	maxKeys = 5                // keys of the generated small histories
+	// maxModelKeys bounds what the model (and a replayed case) may use
+	maxModelKeys = 128
 )
 
 // Op is one step of a history. Every argument is concrete data.
@@ -41,6 +45,12 @@ const (
 //	remove:  Key
 //	clear
 //	advance: the virtual clock moves forward by Dt seconds
+//
+// VK selects the value a Set stores (see valuer): 0 a fresh slice with a unique
+// text, 1 an empty non-nil slice, 2 nil, 3 a unique text of VLen more bytes, 4
+// the one slice of the case that every such Set passes again (same backing
+// array under several keys). Inst (differential only) selects the cache
+// instance when two of them share one server.
 type Op struct {
 	Kind   string `json:"op"`
 	Key    int    `json:"key,omitempty"`
@@ -51,12 +61,77 @@ type Op struct {
 	RAG    bool   `json:"rag,omitempty"`
 	Upd    bool   `json:"upd,omitempty"`
 	Dt     int64  `json:"dt,omitempty"`
+	VK     int    `json:"vk,omitempty"`
+	VLen   int    `json:"vlen,omitempty"`
+	Inst   int    `json:"inst,omitempty"`
+}
+
+const (
+	vkUnique = iota
+	vkEmpty
+	vkNil
+	vkLong
+	vkShared
+)
+
+const sharedText = "S##"
+
+// valuer hands out the values of a case.
+type valuer struct{ shared []byte }
+
+func newValuer() *valuer { return &valuer{shared: []byte(sharedText)} }
+
+// value returns the slice a Set at `step` passes and its content; ok is false
+// for an unknown kind.
+func (vr *valuer) value(step int, o Op) (b []byte, text string, ok bool) {
+	switch o.VK {
+	case vkUnique:
+		text = valueOf(step)
+		return []byte(text), text, true
+	case vkEmpty:
+		return []byte{}, "", true
+	case vkNil:
+		return nil, "", true
+	case vkLong:
+		n := o.VLen
+		if n < 0 || n > 1<<16 {
+			return nil, "", false
+		}
+		buf := make([]byte, 0, len(valueOf(step))+1+n)
+		buf = append(buf, valueOf(step)...)
+		buf = append(buf, ':')
+		for i := 0; i < n; i++ {
+			buf = append(buf, byte(i*31+step*7))
+		}
+		return buf, string(buf), true
+	case vkShared:
+		return vr.shared, sharedText, true
+	}
+	return nil, "", false
+}
+
+// short abbreviates a value for messages.
+func short(v string) string {
+	if len(v) <= 24 {
+		return fmt.Sprintf("%q", v)
+	}
+	return fmt.Sprintf("%q…(%d bytes)", v[:12], len(v))
 }
 
 func (o Op) String() string {
 	switch o.Kind {
 	case "set":
 		s := fmt.Sprintf("Set(k%d", o.Key)
+		switch o.VK {
+		case vkEmpty:
+			s += ",empty"
+		case vkNil:
+			s += ",nil"
+		case vkLong:
+			s += fmt.Sprintf(",long+%d", o.VLen)
+		case vkShared:
+			s += ",shared-slice"
+		}
 		if o.HasTTL {
 			s += fmt.Sprintf(",ttl=%d", o.TTL)
 		}
@@ -113,19 +188,20 @@ func getOpts(o Op) []cache.GetOptFn {
 	return fns
 }
 
-// deadlineOf is the statement's reading of a ttl: <= 0 never expires.
+// deadlineOf is the statement's reading of a ttl: <= 0 never expires, and a
+// ttl that ends beyond the last representable instant cannot elapse either.
 func deadlineOf(now, ttl int64) int64 {
-	if ttl <= 0 {
+	if ttl <= 0 || ttl > inf-now {
 		return inf
 	}
 	return now + ttl
 }
 
-func fmtDl(d int64) string {
+func (m *model) fmtDl(d int64) string {
 	if d == inf {
 		return "never"
 	}
-	return fmt.Sprintf("t0+%d", d-t0)
+	return fmt.Sprintf("t0+%d", d-m.t0)
 }
 
 // ---------------------------------------------------------------------------
@@ -160,14 +236,28 @@ type model struct {
 	ks    []keyState
 	seq   int
 	step  int
-	cover []uint8 // per time point (state after step i): keys proven retrievable there
+	t0    int64
+	cover []kset // per time point (state after step i): keys proven retrievable there
 	res   *vkit.Result
 	nt    bool
 	log   []string
 }
 
-func newModel(size int, ttl int64, keys, steps int, res *vkit.Result) *model {
-	m := &model{size: size, ttl: ttl, now: t0, res: res, ks: make([]keyState, keys), cover: make([]uint8, steps+1)}
+// kset is a set of key indices < maxModelKeys.
+type kset [maxModelKeys / 64]uint64
+
+func (s *kset) add(k int)     { s[k>>6] |= 1 << uint(k&63) }
+func (s kset) has(k int) bool { return s[k>>6]&(1<<uint(k&63)) != 0 }
+func (s kset) count() int {
+	n := 0
+	for _, w := range s {
+		n += bits.OnesCount64(w)
+	}
+	return n
+}
+
+func newModel(size int, ttl int64, keys, steps int, start int64, res *vkit.Result) *model {
+	m := &model{size: size, ttl: ttl, now: start, t0: start, res: res, ks: make([]keyState, keys), cover: make([]kset, steps+1)}
 	for i := range m.ks {
 		m.ks[i] = keyState{why: "never-set", anchor: -1, liveAt: -1}
 	}
@@ -220,7 +310,7 @@ func (m *model) history() string {
 	if len(l) > 60 {
 		l = l[len(l)-60:]
 	}
-	return fmt.Sprintf("size=%d default-ttl=%d history: %s", m.size, m.ttl, strings.Join(l, "; "))
+	return fmt.Sprintf("size=%d default-ttl=%d t0=%d history: %s", m.size, m.ttl, m.t0, strings.Join(l, "; "))
 }
 
 func (m *model) failf(site, format string, a ...any) {
@@ -232,16 +322,20 @@ func (m *model) describe(k int) string {
 	if !s.present {
 		return fmt.Sprintf("k%d absent (%s)", k, s.why)
 	}
-	return fmt.Sprintf("k%d=%q deadline in [%s,%s], now t0+%d, %d other keys touched since its last touch (size %d)",
-		k, s.val, fmtDl(s.lo), fmtDl(s.hi), m.now-t0, m.othersAfter(k), m.size)
+	return fmt.Sprintf("k%d=%s deadline in [%s,%s], now t0+%d (t0=%d), %d other keys touched since its last touch (size %d)",
+		k, short(s.val), m.fmtDl(s.lo), m.fmtDl(s.hi), m.now-m.t0, m.t0, m.othersAfter(k), m.size)
 }
 
 // windowEdge returns the present keys that sit on the last protected position.
-func (m *model) windowEdge() uint8 {
-	var mask uint8
+// (class labels only; skipped for large key sets, where it would dominate the cost)
+func (m *model) windowEdge() kset {
+	var mask kset
+	if len(m.ks) > 8 {
+		return mask
+	}
 	for j := range m.ks {
 		if m.ks[j].present && m.now <= m.ks[j].hi && m.othersAfter(j) == m.size-1 {
-			mask |= 1 << uint(j)
+			mask.add(j)
 		}
 	}
 	return mask
@@ -368,12 +462,12 @@ func (m *model) set(o Op, val string, err error) {
 	m.edgeClass(edgeBefore, k)
 }
 
-func (m *model) edgeClass(edgeBefore uint8, k int) {
-	if m.size == 0 {
+func (m *model) edgeClass(edgeBefore kset, k int) {
+	if m.size == 0 || len(m.ks) > 8 {
 		return
 	}
 	for j := range m.ks {
-		if j != k && edgeBefore&(1<<uint(j)) != 0 && m.ks[j].present && m.othersAfter(j) >= m.size {
+		if j != k && edgeBefore.has(j) && m.ks[j].present && m.othersAfter(j) >= m.size {
 			m.res.Class("eviction-at-bound")
 		}
 	}
@@ -391,7 +485,7 @@ func (m *model) get(o Op, got []byte, err error, probe bool) {
 		label = "final probe " + label
 	}
 	if hit {
-		m.logf("%s -> %q", label, got)
+		m.logf("%s -> %s", label, short(string(got)))
 	} else {
 		m.logf("%s -> %s", label, errName(err))
 	}
@@ -417,7 +511,7 @@ func (m *model) get(o Op, got []byte, err error, probe bool) {
 			m.nt = true
 		}
 		if hit {
-			m.failf("mem/get/must-miss:"+why, "%s returned %q but the key must not be retrievable (%s). %s", label, got, why, m.describe(k))
+			m.failf("mem/get/must-miss:"+why, "%s returned %.40q but the key must not be retrievable (%s). %s", label, got, why, m.describe(k))
 			return
 		}
 		if s.present {
@@ -453,7 +547,7 @@ func (m *model) get(o Op, got []byte, err error, probe bool) {
 	}
 	// a hit: it must carry the value of the latest Set
 	if string(got) != s.val {
-		m.failf("mem/get/value", "%s returned %q, the latest Set stored %q. %s", label, got, s.val, m.describe(k))
+		m.failf("mem/get/value", "%s returned %s, the latest Set stored %s. %s", label, short(string(got)), short(s.val), m.describe(k))
 		return
 	}
 	if s.ext && m.now > s.extHi {
@@ -462,7 +556,7 @@ func (m *model) get(o Op, got []byte, err error, probe bool) {
 	// the key was in the cache, without an intervening Set, since its anchor
 	if s.anchor >= 0 {
 		for i := s.anchor; i < m.step && i < len(m.cover); i++ {
-			m.cover[i] |= 1 << uint(k)
+			m.cover[i].add(k)
 		}
 	}
 	if s.lo < m.now {
@@ -511,7 +605,7 @@ func (m *model) clear() {
 
 func (m *model) advance(dt int64) {
 	m.now += dt
-	m.logf("Advance(%d) now=t0+%d", dt, m.now-t0)
+	m.logf("Advance(%d) now=t0+%d", dt, m.now-m.t0)
 	for k := range m.ks {
 		if s := &m.ks[k]; s.present && (m.now == s.lo || m.now == s.hi) {
 			m.res.Class("clock-on-deadline")
@@ -527,10 +621,10 @@ func (m *model) boundCheck() {
 		return
 	}
 	for i, mask := range m.cover {
-		if bits.OnesCount8(mask) > m.size {
+		if mask.count() > m.size {
 			var ks []string
 			for k := 0; k < len(m.ks); k++ {
-				if mask&(1<<uint(k)) != 0 {
+				if mask.has(k) {
 					ks = append(ks, keyName(k))
 				}
 			}
@@ -556,11 +650,33 @@ func errName(err error) string {
 // part "mem": generated histories
 
 type MemCase struct {
-	Size int   `json:"size"`
-	TTL  int64 `json:"ttl"`  // default ttl of the cache
-	Keys int   `json:"keys"` // keys k0..k<Keys-1>
-	Ops  []Op  `json:"ops"`
+	Size  int   `json:"size"`
+	TTL   int64 `json:"ttl"`             // default ttl of the cache
+	Keys  int   `json:"keys"`            // keys k0..k<Keys-1>
+	Start int64 `json:"start,omitempty"` // first reading of the virtual clock (0 = 1_000_000)
+	Ops   []Op  `json:"ops"`
 }
+
+func (c MemCase) start() int64 {
+	if c.Start == 0 {
+		return t0
+	}
+	return c.Start
+}
+
+// maxDurS is the largest number of whole seconds a time.Duration holds; the
+// redis-backed cache cannot hand a longer ttl to go-redis.
+const maxDurS = int64(math.MaxInt64 / 1_000_000_000)
+
+// bigTTLs: a day and one more (a cap at a round number shows), weeks, years,
+// amounts that carry a realistic clock over 2^31 and 2^32, and ttls at the edge
+// of what a duration and an int64 deadline can hold.
+var bigTTLs = []int64{86400, 86401, 7 * 86400, 365 * 86400, 20 * 365 * 86400, 1 << 31, 1 << 32, 1 << 40,
+	maxDurS - 1, maxDurS, maxDurS + 1, inf / 4, 1 << 62, inf / 2, inf - 10, inf - 1, inf}
+
+// clock starts: the small default, a present-day reading, and readings next to
+// 2^31 and 2^32 (a few seconds of ttl then cross them).
+var clockStarts = []int64{0, 0, 0, 0, 0, 1_760_000_000, 1<<31 - 3, 1<<31 - 1, 1 << 31, 1<<32 - 3, 1<<32 - 1, 1<<32 + 5}
 
 // nominal is the generator's own rough idea of pending deadlines (it ignores
 // eviction); it only steers Advance onto interesting instants.
@@ -613,7 +729,9 @@ func (n *nominal) apply(o Op, def int64) {
 	case "clear":
 		n.dl = map[int]int64{}
 	case "advance":
-		n.now += o.Dt
+		if o.Dt >= 0 && o.Dt <= inf-n.now {
+			n.now += o.Dt
+		}
 	}
 }
 
@@ -628,78 +746,122 @@ type proto struct {
 	Rel int
 }
 
-// genProto draws one element. diff restricts ttls to the positive ones of the
-// differential's domain.
-func genProto(keys int, diff bool) *rapid.Generator[proto] {
+// genCfg: what genProto draws from. diff restricts ttls to the positive ones of
+// the differential's domain; insts > 1 (differential) spreads the elements over
+// that many cache instances.
+type genCfg struct {
+	keys  int
+	diff  bool
+	insts int
+}
+
+// genValueKind draws the value of a Set: mostly a fresh unique text, sometimes
+// empty, nil, long, or the case's one shared slice.
+func genValueKind(t *rapid.T, o *Op) {
+	switch rapid.IntRange(0, 15).Draw(t, "vk") {
+	case 11:
+		o.VK = vkEmpty
+	case 12:
+		o.VK = vkNil
+	case 13:
+		o.VK = vkLong
+		o.VLen = rapid.SampledFrom([]int{8, 16, 17, 64, 255, 256, 1000}).Draw(t, "vlen")
+	case 14, 15:
+		o.VK = vkShared
+	}
+}
+
+func genTTL(t *rapid.T, small []int64, label string) int64 {
+	if rapid.IntRange(0, 5).Draw(t, label+"_big") == 5 {
+		return rapid.SampledFrom(bigTTLs).Draw(t, label)
+	}
+	return rapid.SampledFrom(small).Draw(t, label)
+}
+
+// genProto draws one element.
+func genProto(g genCfg) *rapid.Generator[proto] {
+	keys, diff := g.keys, g.diff
 	setTTLs, updTTLs := []int64{-1, 0, 1, 2, 5}, []int64{0, 0, 1, 2, 5, -1}
 	if diff {
 		setTTLs, updTTLs = []int64{1, 2, 3, 5, 10}, []int64{0, 1, 2, 5, 10}
 	}
 	return rapid.Custom(func(t *rapid.T) proto {
-		w := rapid.IntRange(0, 99).Draw(t, "kind")
-		switch {
-		case w < 36:
-			o := Op{Kind: "set", Key: rapid.IntRange(0, keys-1).Draw(t, "key")}
-			if rapid.IntRange(0, 1).Draw(t, "has_ttl") == 1 {
-				o.HasTTL = true
-				o.TTL = rapid.SampledFrom(setTTLs).Draw(t, "sttl")
+		p := genProtoBody(t, keys, diff, setTTLs, updTTLs)
+		if g.insts > 1 {
+			inst := rapid.IntRange(0, g.insts-1).Draw(t, "inst")
+			for i := range p.Ops {
+				p.Ops[i].Inst = inst
 			}
-			o.MNE = rapid.IntRange(0, 3).Draw(t, "mne") == 3
-			o.Keep = rapid.IntRange(0, 3).Draw(t, "keep") == 3
-			return proto{Ops: []Op{o}}
-		case w < 66:
-			o := Op{Kind: "get", Key: rapid.IntRange(0, keys-1).Draw(t, "key")}
-			switch rapid.IntRange(0, 9).Draw(t, "gopt") {
-			case 4, 5:
-				o.RAG = true
-			case 6, 7, 8:
-				o.Upd = true
-				o.TTL = rapid.SampledFrom(updTTLs).Draw(t, "uttl")
-			case 9:
-				o.RAG, o.Upd = true, true
-				o.TTL = rapid.SampledFrom([]int64{0, 2, 5}).Draw(t, "uttl")
-			}
-			return proto{Ops: []Op{o}}
-		case w < 88:
-			p := proto{Ops: []Op{{Kind: "advance"}}}
-			switch rapid.IntRange(0, 7).Draw(t, "adv") {
-			case 0:
-				p.Ops[0].Dt = 0
-			case 1:
-				p.Ops[0].Dt = 1
-			case 2:
-				p.Ops[0].Dt = int64(rapid.IntRange(0, 6).Draw(t, "dt"))
-			case 3:
-				p.Rel, p.Ops[0].Dt = 1, int64(rapid.IntRange(0, 6).Draw(t, "dt"))
-			case 4:
-				p.Rel, p.Ops[0].Dt = 2, int64(rapid.IntRange(0, 6).Draw(t, "dt"))
-			case 5:
-				p.Rel, p.Ops[0].Dt = 3, int64(rapid.IntRange(0, 6).Draw(t, "dt"))
-			case 6:
-				p.Ops[0].Dt = int64(rapid.IntRange(7, 12).Draw(t, "dt"))
-			default:
-				p.Ops[0].Dt = 100
-			}
-			return p
-		case w < 94 && !diff, w < 93:
-			return proto{Ops: []Op{{Kind: "remove", Key: rapid.IntRange(0, keys-1).Draw(t, "key")}}}
-		case w < 96:
-			return proto{Ops: []Op{{Kind: "clear"}}}
-		case w == 99 && diff:
-			return proto{Ops: genFillClear(t, keys)}
-		default:
-			// a short scripted shape on one key (the rest of the history stays random)
-			return proto{Ops: genMacro(t, rapid.IntRange(0, keys-1).Draw(t, "key"), !diff)}
 		}
+		return p
 	})
+}
+
+func genProtoBody(t *rapid.T, keys int, diff bool, setTTLs, updTTLs []int64) proto {
+	w := rapid.IntRange(0, 99).Draw(t, "kind")
+	switch {
+	case w < 36:
+		o := Op{Kind: "set", Key: rapid.IntRange(0, keys-1).Draw(t, "key")}
+		if rapid.IntRange(0, 1).Draw(t, "has_ttl") == 1 {
+			o.HasTTL = true
+			o.TTL = genTTL(t, setTTLs, "sttl")
+		}
+		o.MNE = rapid.IntRange(0, 3).Draw(t, "mne") == 3
+		o.Keep = rapid.IntRange(0, 3).Draw(t, "keep") == 3
+		genValueKind(t, &o)
+		return proto{Ops: []Op{o}}
+	case w < 66:
+		o := Op{Kind: "get", Key: rapid.IntRange(0, keys-1).Draw(t, "key")}
+		switch rapid.IntRange(0, 9).Draw(t, "gopt") {
+		case 4, 5:
+			o.RAG = true
+		case 6, 7, 8:
+			o.Upd = true
+			o.TTL = genTTL(t, updTTLs, "uttl")
+		case 9:
+			o.RAG, o.Upd = true, true
+			o.TTL = rapid.SampledFrom([]int64{0, 2, 5}).Draw(t, "uttl")
+		}
+		return proto{Ops: []Op{o}}
+	case w < 88:
+		p := proto{Ops: []Op{{Kind: "advance"}}}
+		switch rapid.IntRange(0, 7).Draw(t, "adv") {
+		case 0:
+			p.Ops[0].Dt = 0
+		case 1:
+			p.Ops[0].Dt = 1
+		case 2:
+			p.Ops[0].Dt = int64(rapid.IntRange(0, 6).Draw(t, "dt"))
+		case 3:
+			p.Rel, p.Ops[0].Dt = 1, int64(rapid.IntRange(0, 6).Draw(t, "dt"))
+		case 4:
+			p.Rel, p.Ops[0].Dt = 2, int64(rapid.IntRange(0, 6).Draw(t, "dt"))
+		case 5:
+			p.Rel, p.Ops[0].Dt = 3, int64(rapid.IntRange(0, 6).Draw(t, "dt"))
+		case 6:
+			p.Ops[0].Dt = int64(rapid.IntRange(7, 12).Draw(t, "dt"))
+		default:
+			p.Ops[0].Dt = rapid.SampledFrom([]int64{100, 100, 100, 86400, 86401, 1 << 31, 1 << 32}).Draw(t, "dt")
+		}
+		return p
+	case w < 94 && !diff, w < 93:
+		return proto{Ops: []Op{{Kind: "remove", Key: rapid.IntRange(0, keys-1).Draw(t, "key")}}}
+	case w < 96:
+		return proto{Ops: []Op{{Kind: "clear"}}}
+	case w == 99 && diff:
+		return proto{Ops: genFillClear(t, keys)}
+	default:
+		// a short scripted shape (the rest of the history stays random)
+		return proto{Ops: genMacro(t, keys, !diff)}
+	}
 }
 
 // genProtos draws the history: between 1 and 40 elements, lengths spread over
 // the whole range (the lower bound is drawn first; rapid shrinks it to 1 and
 // then deletes elements).
-func genProtos(t *rapid.T, keys int, diff bool) []proto {
+func genProtos(t *rapid.T, g genCfg) []proto {
 	lo := rapid.IntRange(1, 30).Draw(t, "minlen")
-	return rapid.SliceOfN(genProto(keys, diff), lo, 40).Draw(t, "ops")
+	return rapid.SliceOfN(genProto(g), lo, 40).Draw(t, "ops")
 }
 
 // relAdvance resolves a relative Advance.
@@ -711,7 +873,7 @@ func relAdvance(rel int, fallback, now, near int64, pending bool) int64 {
 	case 1:
 		return near - now
 	case 2:
-		return near - now + 1
+		return near - now + 1 // near < MaxInt64 (never-expiring keys are not pending), now >= 0
 	case 3:
 		if near-now >= 1 {
 			return near - now - 1
@@ -721,23 +883,31 @@ func relAdvance(rel int, fallback, now, near int64, pending bool) int64 {
 	return fallback
 }
 
-func GenMem(t *rapid.T) MemCase {
-	c := MemCase{
-		Size: rapid.SampledFrom([]int{0, 0, 1, 1, 2, 2, 3, 3, 4, 5}).Draw(t, "size"),
-		TTL:  rapid.SampledFrom([]int64{-1, 0, 1, 3, 10}).Draw(t, "ttl"),
-		Keys: rapid.IntRange(1, maxKeys).Draw(t, "keys"),
-	}
-	nom := &nominal{now: t0, dl: map[int]int64{}}
-	for _, p := range genProtos(t, c.Keys, false) {
+// resolve folds the drawn elements into concrete operations.
+func resolve(protos []proto, start, def int64) []Op {
+	var ops []Op
+	nom := &nominal{now: start, dl: map[int]int64{}}
+	for _, p := range protos {
 		for _, o := range p.Ops {
 			if o.Kind == "advance" && p.Rel != 0 {
 				near, ok := nom.nearest()
 				o.Dt = relAdvance(p.Rel, o.Dt, nom.now, near, ok)
 			}
-			nom.apply(o, c.TTL)
-			c.Ops = append(c.Ops, o)
+			nom.apply(o, def)
+			ops = append(ops, o)
 		}
 	}
+	return ops
+}
+
+func GenMem(t *rapid.T) MemCase {
+	c := MemCase{
+		Size:  rapid.SampledFrom([]int{0, 0, 1, 1, 2, 2, 3, 3, 4, 5}).Draw(t, "size"),
+		TTL:   rapid.SampledFrom([]int64{-1, 0, 1, 3, 10, -1, 0, 1, 3, 10, 30 * 86400, inf}).Draw(t, "ttl"),
+		Keys:  rapid.IntRange(1, maxKeys).Draw(t, "keys"),
+		Start: rapid.SampledFrom(clockStarts).Draw(t, "start"),
+	}
+	c.Ops = resolve(genProtos(t, genCfg{keys: c.Keys}), c.start(), c.TTL)
 	return c
 }
 
@@ -756,14 +926,19 @@ func genFillClear(t *rapid.T, keys int) []Op {
 	return append(ops, Op{Kind: "clear"}, Op{Kind: "get", Key: m - 1}, Op{Kind: "get", Key: 0}, Op{Kind: "set", Key: m - 1, MNE: true})
 }
 
-// genMacro emits one of the 4-step shapes named in the design: a second Set
-// (must-not-exist / keep-ttl) after the ttl elapsed (F2), update-ttl carrying a
-// key past its original deadline, keep-ttl on a live key followed by the old
-// deadline passing. ttl and distances vary; with anyKeep false the second Set of
-// the first shape is always must-not-exist (the differential excludes keep-ttl on dead keys).
-func genMacro(t *rapid.T, k int, anyKeep bool) []Op {
+// genMacro emits one of the scripted shapes: a second Set (must-not-exist /
+// keep-ttl) after the ttl elapsed (F2), update-ttl carrying a key past its
+// original deadline, keep-ttl on a live key followed by the old deadline
+// passing (ttl and distances vary; with anyKeep false the second Set of the
+// first shape is always must-not-exist - the differential excludes keep-ttl on
+// dead keys); a long ttl read in the middle of its life, one second before its
+// end and after it; one slice stored under two keys, one of them overwritten
+// with a value of the same length, the other read; a value kept from a Get and
+// an overwrite of its key.
+func genMacro(t *rapid.T, keys int, anyKeep bool) []Op {
+	k := rapid.IntRange(0, keys-1).Draw(t, "key")
 	ttl := int64(rapid.IntRange(1, 3).Draw(t, "mttl"))
-	switch rapid.IntRange(0, 2).Draw(t, "macro") {
+	switch rapid.IntRange(0, 5).Draw(t, "macro") {
 	case 0:
 		second := Op{Kind: "set", Key: k, MNE: true}
 		if anyKeep && rapid.Bool().Draw(t, "mkeep") {
@@ -775,77 +950,181 @@ func genMacro(t *rapid.T, k int, anyKeep bool) []Op {
 		ext := int64(rapid.IntRange(2, 6).Draw(t, "mext"))
 		return []Op{{Kind: "set", Key: k, HasTTL: true, TTL: ttl}, {Kind: "get", Key: k, Upd: true, TTL: ttl + ext},
 			{Kind: "advance", Dt: ttl + 1}, {Kind: "get", Key: k}}
-	default:
+	case 2:
 		return []Op{{Kind: "set", Key: k, HasTTL: true, TTL: ttl}, {Kind: "set", Key: k, Keep: true},
 			{Kind: "advance", Dt: ttl + 1}, {Kind: "get", Key: k}}
+	case 3:
+		big := rapid.SampledFrom(bigTTLs).Draw(t, "mbig")
+		first := big / 2
+		if rapid.Bool().Draw(t, "mday") {
+			first = 86400
+		}
+		if first >= big {
+			first = big - 1
+		}
+		return []Op{{Kind: "set", Key: k, HasTTL: true, TTL: big}, {Kind: "advance", Dt: first}, {Kind: "get", Key: k},
+			{Kind: "advance", Dt: big - first - 1}, {Kind: "get", Key: k}, {Kind: "advance", Dt: 2}, {Kind: "get", Key: k}}
+	case 4:
+		k2 := (k + 1 + rapid.IntRange(0, keys-1).Draw(t, "key2")) % keys // a different key when there is one
+		return []Op{{Kind: "set", Key: k, VK: vkShared}, {Kind: "set", Key: k2, VK: vkShared}, {Kind: "set", Key: k},
+			{Kind: "get", Key: k2}, {Kind: "get", Key: k}}
+	default:
+		return []Op{{Kind: "set", Key: k}, {Kind: "get", Key: k}, {Kind: "set", Key: k}, {Kind: "get", Key: k}}
 	}
 }
 
-func valueOf(step int) string { return fmt.Sprintf("v%d", step) }
+func valueOf(step int) string { return fmt.Sprintf("v%02d", step) }
+
+// heldVal is a value a Get returned, kept by the caller: it must read the same
+// for as long as the caller holds it, whatever is stored later.
+type heldVal struct {
+	buf  []byte
+	text string
+	what string
+}
+
+// memRun executes operations on one cache, judged by the model.
+type memRun struct {
+	ctx     context.Context
+	tc      cache.TTLCache
+	m       *model
+	res     *vkit.Result
+	keys    int
+	now     func() int64
+	advance func(dt int64)
+	vr      *valuer
+	held    []heldVal
+}
+
+func (r *memRun) checkHeld() {
+	if r.res.Fail != nil {
+		return
+	}
+	for _, h := range r.held {
+		if string(h.buf) != h.text {
+			r.m.failf("mem/get/returned-value-changed", "the value %s that %s returned reads %s after the operations that followed: a value handed out by Get belongs to the caller",
+				short(h.text), h.what, short(string(h.buf)))
+			return
+		}
+	}
+}
+
+func (r *memRun) hold(i int, o Op, v []byte, err error) {
+	if err == nil && len(v) > 0 && len(r.held) < 64 {
+		r.held = append(r.held, heldVal{buf: v, text: string(v), what: fmt.Sprintf("[%d] %s", i, o)})
+	}
+}
+
+// step executes operation o as step i.
+func (r *memRun) step(i int, o Op) {
+	m, res := r.m, r.res
+	m.step = i
+	if (o.Kind == "set" || o.Kind == "get" || o.Kind == "remove") && (o.Key < 0 || o.Key >= r.keys) {
+		res.Skip("op-on-unknown-key")
+		return
+	}
+	switch o.Kind {
+	case "set":
+		b, text, ok := r.vr.value(i, o)
+		if !ok {
+			res.Skip("unknown-value-kind")
+			return
+		}
+		switch o.VK {
+		case vkEmpty, vkNil:
+			res.Class("empty-value")
+		case vkLong:
+			res.Class("long-value")
+		case vkShared:
+			res.Class("shared-slice")
+		}
+		err := r.tc.Set(r.ctx, keyName(o.Key), b, setOpts(o)...)
+		m.set(o, text, err)
+		r.checkHeld()
+	case "get":
+		v, err := r.tc.Get(r.ctx, keyName(o.Key), getOpts(o)...)
+		m.get(o, v, err, false)
+		r.hold(i, o, v, err)
+	case "remove":
+		m.remove(o, r.tc.Remove(r.ctx, keyName(o.Key)))
+	case "clear":
+		r.tc.Clear(r.ctx)
+		m.clear()
+	case "advance":
+		if o.Dt < 0 || o.Dt > inf-r.now() {
+			res.Skip("advance-out-of-range")
+			return
+		}
+		if o.Dt >= 86400 {
+			res.Class("advance>=1day")
+		}
+		before := r.now()
+		r.advance(o.Dt)
+		m.advance(o.Dt)
+		for _, edge := range []int64{1 << 31, 1 << 32} {
+			if before < edge && m.now >= edge {
+				res.Class(fmt.Sprintf("clock-crosses-2^%d", bits.Len64(uint64(edge))-1))
+			}
+		}
+	default:
+		res.Skip("unknown-op")
+	}
+}
+
+// probe reads the given keys (steps base, base+1, ...) and checks the bound.
+func (r *memRun) probe(base int, keys []int) {
+	hits := 0
+	var hitKeys []string
+	for j, k := range keys {
+		r.m.step = base + j
+		o := Op{Kind: "get", Key: k}
+		v, err := r.tc.Get(r.ctx, keyName(k))
+		if err == nil {
+			hits++
+			hitKeys = append(hitKeys, keyName(k))
+		}
+		r.m.get(o, v, err, true)
+		if r.res.Fail != nil {
+			return
+		}
+	}
+	if hits > r.m.size {
+		r.m.failf("mem/bound/final-probe", "final probe found %d retrievable keys %v, size is %d", hits, hitKeys, r.m.size)
+		return
+	}
+	r.checkHeld()
+}
 
 func ExecMem(c MemCase) *vkit.Result {
 	res := &vkit.Result{}
-	if c.Size < 0 || c.Size > 1<<20 || c.Keys < 1 || c.Keys > maxKeys {
+	if c.Size < 0 || c.Size > 1<<20 || c.Keys < 1 || c.Keys > maxModelKeys || c.Start < 0 || len(c.Ops) > 1<<16 {
 		res.Skip("malformed-case")
 		return res
 	}
-	clk := t0
+	clk := c.start()
 	restore := cache.VerifSetNow(func() int64 { return clk })
 	defer restore()
-	ctx := context.Background()
-	tc := cache.NewTTLMemCache(c.Size, c.TTL)
-	m := newModel(c.Size, c.TTL, c.Keys, len(c.Ops)+c.Keys, res)
+	if clk >= 1<<31 {
+		res.Class("clock>=2^31")
+	} else if clk > 1<<30 {
+		res.Class("clock-present-day")
+	}
+	m := newModel(c.Size, c.TTL, c.Keys, len(c.Ops)+c.Keys, clk, res)
+	r := &memRun{ctx: context.Background(), tc: cache.NewTTLMemCache(c.Size, c.TTL), m: m, res: res, keys: c.Keys,
+		now: func() int64 { return clk }, advance: func(dt int64) { clk += dt }, vr: newValuer()}
 	for i, o := range c.Ops {
-		m.step = i
-		if (o.Kind == "set" || o.Kind == "get" || o.Kind == "remove") && (o.Key < 0 || o.Key >= c.Keys) {
-			res.Skip("op-on-unknown-key")
-			continue
-		}
-		switch o.Kind {
-		case "set":
-			v := valueOf(i)
-			err := tc.Set(ctx, keyName(o.Key), []byte(v), setOpts(o)...)
-			m.set(o, v, err)
-		case "get":
-			v, err := tc.Get(ctx, keyName(o.Key), getOpts(o)...)
-			m.get(o, v, err, false)
-		case "remove":
-			m.remove(o, tc.Remove(ctx, keyName(o.Key)))
-		case "clear":
-			tc.Clear(ctx)
-			m.clear()
-		case "advance":
-			if o.Dt < 0 || o.Dt > 1<<40 {
-				res.Skip("advance-out-of-range")
-				continue
-			}
-			clk += o.Dt
-			m.advance(o.Dt)
-		default:
-			res.Skip("unknown-op")
-		}
+		r.step(i, o)
 		if res.Fail != nil {
 			return res
 		}
 	}
 	// final probe of every key
-	hits := 0
-	var hitKeys []string
-	for k := 0; k < c.Keys; k++ {
-		m.step = len(c.Ops) + k
-		o := Op{Kind: "get", Key: k}
-		v, err := tc.Get(ctx, keyName(k))
-		if err == nil {
-			hits++
-			hitKeys = append(hitKeys, keyName(k))
-		}
-		m.get(o, v, err, true)
-		if res.Fail != nil {
-			return res
-		}
+	all := make([]int, c.Keys)
+	for k := range all {
+		all[k] = k
 	}
-	if hits > c.Size {
-		m.failf("mem/bound/final-probe", "final probe found %d retrievable keys %v, size is %d", hits, hitKeys, c.Size)
+	r.probe(len(c.Ops), all)
+	if res.Fail != nil {
 		return res
 	}
 	m.boundCheck()
@@ -853,13 +1132,81 @@ func ExecMem(c MemCase) *vkit.Result {
 	return res
 }
 
-const ruleMem = "rapid: size 0..5 (0,1,2 weighted), default ttl in {-1,0,1,3,10}, 1..5 keys, 1..40 independently drawn elements (rapid.SliceOfN, so shrinking can delete any of them), resolved by a deterministic fold: Set(36%: WithTTL in {-1,0,1,2,5} half the time, must-not-exist 1/4, keep-ttl 1/4, any combination), Get(30%: plain / remove-after-get / update-ttl(0|1|2|5|-1) / both), Advance(22%: 0, 1, 0..6, exactly onto / one past / one before the nearest pending deadline, 7..12, 100), Remove(6%), Clear(2%), and 4% scripted 4-step shapes on one key (Set ttl, let it elapse, Set must-not-exist|keep-ttl, Get / Set, update-ttl, pass the old deadline, Get / Set, keep-ttl, pass the deadline, Get); virtual clock through cache.VerifSetNow; unique value per Set. Oracle: three-valued model (must-hit / must-miss / either, the observed answer adopted - also for the rest of the same clock reading) with a deadline interval per key and the recency window of the statement; a hit returns the latest value; must-not-exist fails iff live and succeeds iff absent/expired; final probe of all keys, #hits <= size, and no time point with more than size keys proven retrievable. Non-trivial: a Get / must-not-exist / keep-ttl whose outcome is fixed by an elapsed ttl, or a key found gone after leaving the recency window (eviction), or any read at size 0 after a Set; distinct = distinct case JSON"
+const ruleMem = "rapid: size 0..5 (0,1,2 weighted), default ttl in {-1,0,1,3,10; rarely 30 days, MaxInt64}, 1..5 keys, the virtual clock (cache.VerifSetNow) starting at 1e6 (5/12), at a present-day reading, or 3 / 1 / 0 seconds before 2^31 or 2^32 (or just past it), 1..40 independently drawn elements (rapid.SliceOfN, so shrinking can delete any of them), resolved by a deterministic fold: Set(36%: WithTTL half the time - in {-1,0,1,2,5}, 1/6 of them a long one: a day, a day+1, a week, a year, 20 years, 2^31, 2^32, 2^40, MaxInt64/1e9 -1/+0/+1, MaxInt64/4, 2^62, MaxInt64/2, MaxInt64-10, MaxInt64-1, MaxInt64 - must-not-exist 1/4, keep-ttl 1/4, any combination; the value a fresh unique text, or (5/16) empty, nil, 8..1000 bytes longer, or the one slice of the case passed again under another key), Get(30%: plain / remove-after-get / update-ttl(0|1|2|5|-1|a long one) / both), Advance(22%: 0, 1, 0..6, exactly onto / one past / one before the nearest pending deadline - however far away it is -, 7..12, 100, a day, 2^31, 2^32), Remove(6%), Clear(2%), and 4% scripted shapes (Set ttl, let it elapse, Set must-not-exist|keep-ttl, Get / Set, update-ttl, pass the old deadline, Get / Set, keep-ttl, pass the deadline, Get / Set a long ttl, read after a day or half of it, one second before its end, after it / one slice under two keys, overwrite one with a value of the same length, read both / Set, Get, Set, Get of one key). Oracle: three-valued model (must-hit / must-miss / either, the observed answer adopted - also for the rest of the same clock reading) with a deadline interval per key (a ttl that ends beyond MaxInt64 never elapses) and the recency window of the statement; a hit returns the latest value (empty and nil values are hits with an empty value); every non-empty value a Get returned still reads the same after each later Set and at the end; must-not-exist fails iff live and succeeds iff absent/expired; final probe of all keys, #hits <= size, and no time point with more than size keys proven retrievable. Non-trivial: a Get / must-not-exist / keep-ttl whose outcome is fixed by an elapsed ttl, or a key found gone after leaving the recency window (eviction), or any read at size 0 after a Set; distinct = distinct case JSON"
 
 var PartMem = &vkit.Part[MemCase]{
 	Property: Property, Name: "mem",
 	Rule:  ruleMem,
 	Quick: 20000, Thorough: 80000,
 	Gen: GenMem, Exec: ExecMem,
+}
+
+// ---------------------------------------------------------------------------
+// part "mem-big": sizes 6..64 with more distinct keys than the size, so that the
+// eviction of exactly one entry per overflow - and of none before - is observed.
+
+func genBigProto(size, keys int) *rapid.Generator[proto] {
+	return rapid.Custom(func(t *rapid.T) proto {
+		w := rapid.IntRange(0, 99).Draw(t, "kind")
+		switch {
+		case w < 35:
+			// a run of Sets over consecutive keys, then reads around the edge of the window
+			from := rapid.IntRange(0, keys-1).Draw(t, "from")
+			n := rapid.IntRange(1, keys).Draw(t, "run")
+			if rapid.Bool().Draw(t, "overflow") { // half of the time just enough to overflow
+				n = size + rapid.IntRange(1, keys-size).Draw(t, "over")
+			}
+			var ops []Op
+			for i := 0; i < n; i++ {
+				ops = append(ops, Op{Kind: "set", Key: (from + i) % keys})
+			}
+			// the oldest key of the run that is still inside the window, and its neighbours
+			edge := from + n - size
+			if edge < from {
+				edge = from
+			}
+			for _, d := range []int{0, 1, -1} {
+				if rapid.IntRange(0, 2).Draw(t, "probe") > 0 {
+					ops = append(ops, Op{Kind: "get", Key: ((edge+d)%keys + keys) % keys})
+				}
+			}
+			return proto{Ops: ops}
+		case w < 50:
+			o := Op{Kind: "set", Key: rapid.IntRange(0, keys-1).Draw(t, "key")}
+			if rapid.IntRange(0, 3).Draw(t, "has_ttl") == 3 {
+				o.HasTTL, o.TTL = true, rapid.SampledFrom([]int64{0, 2, 5}).Draw(t, "sttl")
+			}
+			o.MNE = rapid.IntRange(0, 3).Draw(t, "mne") == 3
+			return proto{Ops: []Op{o}}
+		case w < 85:
+			o := Op{Kind: "get", Key: rapid.IntRange(0, keys-1).Draw(t, "key")}
+			o.RAG = rapid.IntRange(0, 5).Draw(t, "rag") == 5
+			return proto{Ops: []Op{o}}
+		case w < 92:
+			return proto{Ops: []Op{{Kind: "advance", Dt: int64(rapid.IntRange(0, 6).Draw(t, "dt"))}}}
+		case w < 98:
+			return proto{Ops: []Op{{Kind: "remove", Key: rapid.IntRange(0, keys-1).Draw(t, "key")}}}
+		default:
+			return proto{Ops: []Op{{Kind: "clear"}}}
+		}
+	})
+}
+
+func GenMemBig(t *rapid.T) MemCase {
+	c := MemCase{
+		Size: rapid.SampledFrom([]int{6, 7, 8, 9, 12, 15, 16, 17, 24, 32, 40, 63, 64}).Draw(t, "size"),
+		TTL:  rapid.SampledFrom([]int64{0, 0, -1, 10}).Draw(t, "ttl"),
+	}
+	c.Keys = c.Size + rapid.IntRange(1, 8).Draw(t, "extra")
+	c.Ops = resolve(rapid.SliceOfN(genBigProto(c.Size, c.Keys), 1, 12).Draw(t, "ops"), c.start(), c.TTL)
+	return c
+}
+
+var PartMemBig = &vkit.Part[MemCase]{
+	Property: Property, Name: "mem-big",
+	Rule:  "rapid: size in {6,7,8,9,12,15,16,17,24,32,40,63,64}, size+1..size+8 keys, default ttl in {0,-1,10}, 1..12 independently drawn elements: a run of 1..keys (half of the time size+1..keys) Sets over consecutive keys followed by reads of the oldest key that must still be inside the recency window and of its two neighbours (35%), single Set (ttl / must-not-exist sometimes), Get (1/6 remove-after-get), Advance 0..6, Remove, Clear; judged by the same three-valued model, final probe and bound as part mem. Non-trivial: as in part mem (a key found gone after it left the recency window, or an outcome fixed by an elapsed ttl)",
+	Quick: 2500, Thorough: 20000,
+	Gen: GenMemBig, Exec: ExecMem,
 }
 
 // ---------------------------------------------------------------------------
